@@ -57,6 +57,12 @@ def gen_chain_scene(
         motion = None
         if rng.random() < 0.6:
             motion = {"amp": rng.uniform(-0.2, 0.2, 3).tolist(), "w": float(rng.uniform(1, 6)), "axis": rng.normal(size=3).tolist(), "alpha": float(rng.uniform(0, 0.5))}
+            style = rng.random()
+            if style < 0.2:
+                motion["amp"] = [0.0, 0.0, 0.0]  # rotating about a fixed point
+                motion["alpha"] = float(rng.uniform(0.1, 0.5))
+            elif style < 0.4:
+                motion["alpha"] = 0.0  # translating only
         scene["frames"].append({"r": rng.uniform(-0.5, 0.5, 3).tolist(), "p": rot.rand_quat(rng).tolist(), "motion": motion})
     elif allow_frames and rng.random() < 0.2:
         scene["frames"].append({"r": rng.uniform(-0.5, 0.5, 3).tolist(), "p": rot.rand_quat(rng).tolist(), "motion": None})
